@@ -27,6 +27,19 @@ def run(tier, replay):
         # wire surface: the same TLC cases through the real binary on loopback sockets (accept loop, pool, real transport)
         trace3 = S.serve(worlds, cases, sc, obs="full", stats=False, tag="w", wire=True)
         tv3 = S.judge("C02", "Trace_Static_c02", trace3, verdict, signature)
+        # time as a dimension of the documents: the plain-target cases of one world are served, every file is rewritten in place with
+        # new content of the same length and the same modification time, and the same cases are served again by the same server
+        rwc = sc.path("rewrite_cases.ndjson")
+        import json as _json
+        with open(cases) as f, open(rwc, "w") as o:
+            for line in f:
+                c = _json.loads(line)
+                if c["w"] == 23 and c["query"] == "" and c["frag"] == "":
+                    o.write(line)
+        trace6 = S.serve(worlds, rwc, sc, obs="full", stats=False, tag="rw", rewrite=True)
+        S.judge("C02", "Trace_Static_c02", trace6, verdict, signature)
+        trace7 = S.serve(worlds, rwc, sc, obs="full", stats=False, tag="rww", wire=True, rewrite=True)
+        S.judge("C02", "Trace_Static_c02", trace7, verdict, signature)
         # Router leg: reserved names, built-in pages, unknown paths and the form-get endpoint x nine methods on the menu worlds
         # plus a world holding its own copy of every asset.  C02 clauses go to the verdict (a file of a reserved name in the root
         # is served like any file); the R.* clauses pin behaviour the properties leave free and are reported as notes only.
